@@ -104,6 +104,7 @@ var c12Menu = []string{
 	"EOF", "ERROR", "S'", "a__b", "_a", "A_", "x", "X9",
 	"[a]", "[]", "[a-]", "[-a]", "[z-a]", "[\\xff]", "[\\UFFFFFFFF]", "~[]", "[",
 	"@left(0)", "@left(99999999999999999999)", "@right(-1)", "@list(", "@push_mode()",
+	"[a-c]-[a]", "[a-z]-[a-z]", "[ace]-[a]", "[a-c]-[a-z]", "~[a]-[b]", "[a]-~[a]", "[a-c]-[b]-[c]",
 }
 
 var c12SmallMenu = []string{"@error", "@empty", "|", "=", "\n", "*!", "''", "99999999999999999999", "[z-a]", "(", "@left(0)"}
